@@ -21,17 +21,22 @@ STATE = {'mon': None}
 
 def space(tier):
     q = tier == 'quick'
-    return {'orders': [1, 2, 3] if q else [1, 2, 3, 4], 'dims': [2, 3] if q else [1, 2, 3], 'rhs ranks': [1, 2],
+    return {'orders': [1, 2, 3] if q else [1, 2, 3, 4, 5], 'dims': [2, 3] if q else [1, 2, 3, 4], 'rhs ranks': [1, 2],
             'guess ranks': 'all admissible vectors', 'solver': ['solve', 'lu'], 'repeats': [1, 2, 3],
             'methods': ['als', 'mals(0,inf)', 'mals(1e-12,inf)', 'mals(1e-12,r) and mals(0,r), r=1..3']}
 
 
 def cases(tier):
     q = tier == 'quick'
-    for d in ([1, 2, 3] if q else [1, 2, 3, 4]):
-        dimsets = itertools.product([2, 3], repeat=d) if (q or d == 4) else itertools.product([1, 2, 3], repeat=d)
+    for d in ([1, 2, 3] if q else [1, 2, 3, 4, 5]):
+        if q or d == 4:
+            dimsets = itertools.product([2, 3], repeat=d)
+        elif d == 5:
+            dimsets = [(2,) * 5]
+        else:
+            dimsets = itertools.product([1, 2, 3] if d == 3 else [1, 2, 3, 4], repeat=d)
         for dims in dimsets:
-            if d == 4 and np.prod(dims) > 36:
+            if d == 4 and np.prod(dims) > 54:
                 continue
             if all(x == 1 for x in dims):
                 continue
@@ -46,7 +51,7 @@ def cases(tier):
                                 if d >= 2:
                                     meths += [('mals', 0, 'inf'), ('mals', 1e-12, 'inf')] + [('mals', t_, r) for r in (1, 2, 3) for t_ in (1e-12, 0)]
                                 for meth, thr, mr in meths:
-                                    if not q and d == 4 and (solver == 'lu' or opk == 'ttbuilt') and meth == 'mals' and mr not in ('inf',):
+                                    if not q and d >= 4 and (solver == 'lu' or opk == 'ttbuilt') and meth == 'mals' and mr not in ('inf',):
                                         continue
                                     yield {'dims': list(dims), 'c': c, 'op': opk, 'rb': rb, 'rg': rg, 'solver': solver,
                                            'meth': meth, 'thr': thr, 'mr': mr}
